@@ -281,7 +281,7 @@ func renderGenbank(genes []gene, genome string) (text string, proto string) {
 		fmt.Fprintf(&b, "     gene            %s\n                     /gene=\"%s\"\n", g.gbLocation(), g.name)
 		fmt.Fprintf(&b, "     CDS             %s\n                     /gene=\"%s\"\n                     /codon_start=%d\n", g.gbLocation(), g.name, g.codonStart)
 		// wrap the translation like a real flat file: the value continues on lines indented to column 22
-		wrapAt := 44 // 58 columns of qualifier text, 14 of them taken by /translation="
+		wrapAt := 44        // 58 columns of qualifier text, 14 of them taken by /translation="
 		if len(tr)%2 == 0 { // short genes never reach column 79: wrap every other one early so that continuation lines occur
 			wrapAt = 2 + len(tr)%5
 		}
